@@ -202,6 +202,27 @@ Theorem C18_render_leaves_context_unchanged :
   render_to W wr wd fuel tpl block c g w = RDone s o -> context s = c /\ global s = Some g.
 Proof. exact render_to_same_ctx. Qed.
 
+(* render_pure over histories (the definition behind the purity-history oracle): whatever renders
+   are interleaved with registrations / configuration changes, the engine afterwards is the one
+   the registrations alone produce, and each render returns what it returns on the engine built
+   by the registrations before it. By construction of the model (render takes the world, returns
+   only a result); the engine side is harness/src/c18_history.rs. *)
+Theorem C18_history_renders_leave_no_trace :
+  forall (req : Type) (render : world -> req -> res str) (h : list (hop req)) (wd : world),
+  fst (run_history req render wd h) = fst (run_history req render wd (strip_renders req h)) /\
+  snd (run_history req render wd (strip_renders req h)) = [].
+Proof.
+  exact (fun req render h wd => conj (history_world_ignores_renders req render h wd)
+                                     (history_no_renders_no_outputs req render h wd)).
+Qed.
+
+Theorem C18_history_render_result :
+  forall (req : Type) (render : world -> req -> res str) (h1 : list (hop req)) (r : req) (h2 : list (hop req)) (wd : world),
+  nth_error (snd (run_history req render wd (h1 ++ HRender req r :: h2)))
+            (length (filter (fun o => negb (is_reg req o)) h1))
+  = Some (render (fst (run_history req render wd (strip_renders req h1))) r).
+Proof. exact history_render_result. Qed.
+
 Print Assumptions C18_failing_writer_prefix.
 Print Assumptions C18_interpret_leaves_context_unchanged.
 Print Assumptions C18_failing_writer_prefix_run.
